@@ -107,6 +107,8 @@ impl MetaStore {
     }
 
     pub fn register_wal_segment(&mut self, wal_id: u64) {
+        #[cfg(feature = "verif")]
+        crate::verif::hooks::store_event(|| crate::verif::hooks::StoreEvent::RegisterWalSegment { id: wal_id });
         self.next_wal_id = self.next_wal_id.max(wal_id + 1);
     }
 
@@ -115,6 +117,8 @@ impl MetaStore {
     }
 
     pub fn advance_earliest_unflushed_wal_id(&mut self, wal_id: u64) {
+        #[cfg(feature = "verif")]
+        crate::verif::hooks::store_event(|| crate::verif::hooks::StoreEvent::AdvanceCursor { to: wal_id });
         self.earliest_unflushed_wal_id = wal_id;
     }
 
@@ -163,11 +167,21 @@ impl MetaStore {
 
     pub fn add_wal_segment(&mut self) -> u64 {
         let wal_id = self.next_wal_id;
+        #[cfg(feature = "verif")]
+        crate::verif::hooks::store_event(|| crate::verif::hooks::StoreEvent::AddWalSegment { id: wal_id });
         self.next_wal_id += 1;
         wal_id
     }
 
     pub fn insert_partition(&mut self, partition: PartitionMetadata) {
+        #[cfg(feature = "verif")]
+        crate::verif::hooks::store_event(|| crate::verif::hooks::StoreEvent::InsertPartition {
+            table: partition.tablename.clone(),
+            id: partition.id,
+            offset: partition.offset,
+            len: partition.len,
+            subpartitions: partition.subpartitions.iter().map(|s| (s.subpartition_key.clone(), s.size_bytes)).collect(),
+        });
         self.partitions
             .entry(partition.tablename.clone())
             .or_default()
@@ -179,6 +193,11 @@ impl MetaStore {
         table: &str,
         old_partitions: &[PartitionID],
     ) -> Vec<(u64, String)> {
+        #[cfg(feature = "verif")]
+        crate::verif::hooks::store_event(|| crate::verif::hooks::StoreEvent::DeletePartitions {
+            table: table.to_string(),
+            ids: old_partitions.to_vec(),
+        });
         let all_partitions = self.partitions.get_mut(table).unwrap();
         old_partitions
             .iter()
@@ -344,5 +363,13 @@ impl MetaStore {
             earliest_unflushed_wal_id: next_wal_id,
             partitions,
         })
+    }
+}
+
+// verification hooks: serialisation without a caller-supplied tracer (add-only, feature `verif`)
+#[cfg(feature = "verif")]
+impl MetaStore {
+    pub fn verif_serialize(&self) -> Vec<u8> {
+        self.serialize(&mut SimpleTracer::default())
     }
 }
